@@ -302,8 +302,8 @@ def toUpstream : Except RouteError (Option ProxyURL) → Upstream
 def builtinLocalhost : List Bytes := [bs "localhost", bs "0.0.0.0", bs "::"]
 
 /-- `hp.localhost` after `NewHTTPProxy` appended `hostsfile.LocalhostAliases()`: the names the hosts
-    file maps to a loopback address -/
-def hpLocalhost (aliases : List Bytes) : List Bytes := builtinLocalhost ++ aliases
+    file maps to a loopback address (as spelt there), each lower-cased -/
+def hpLocalhost (aliases : List Bytes) : List Bytes := builtinLocalhost ++ aliases.map lower
 
 /-- `HTTPProxy.isLocalhost` with the alias list as a parameter -/
 def isLocalhost (aliases : List Bytes) (host : Bytes) : Bool := Req.isLocalhostNames (hpLocalhost aliases) host
@@ -434,6 +434,117 @@ def step (c : InstCfg) (st : InstState) (q : RouteReq) : InstState × Except Rou
 def runSeq (c : InstCfg) : InstState → List RouteReq → List (Except RouteError Hop)
   | _, [] => []
   | st, q :: qs => (step c st q).2 :: runSeq c (step c st q).1 qs
+
+/-! ### the process environment
+
+`http.ProxyFromEnvironment` reads `HTTP_PROXY` / `HTTPS_PROXY` / `NO_PROXY` (and their lower-case
+spellings) of the process: what it would answer is the `Ambient` below.  `NewHTTPTransport` builds the
+transport with `Proxy: nil`; `martian.Proxy.init` then installs `hp.proxyFunc` in the transport when
+there is one and otherwise keeps what the transport has (`p.ProxyURL = t.Proxy`).  So the function
+the transport and the CONNECT path consult is `effectiveProxy`: with a transport field that is nil
+the environment never reaches a routing decision. -/
+
+/-- what the environment names: the proxy for `http` URLs, for `https` URLs, and the hosts exempted -/
+structure Ambient where
+  httpProxy : Option ProxyURL := none
+  httpsProxy : Option ProxyURL := none
+  noProxy : List Bytes := []
+  deriving Repr
+
+/-- `http.ProxyFromEnvironment` for a request with this scheme and host (`httpproxy.Config.ProxyFunc`:
+    loopback targets and `NO_PROXY` entries are exempt; a URL without scheme — CONNECT — gets none) -/
+def Ambient.proxyFor (env : Ambient) (scheme host : Bytes) : Option ProxyURL :=
+  if lower host == bs "localhost" || isLoopbackLiteral (lower host) || env.noProxy.contains (lower host) then none
+  else if scheme == bs "https" then env.httpsProxy else if scheme == bs "http" then env.httpProxy else none
+
+/-- the `Proxy` field of the `*http.Transport` `NewHTTPTransport` returns: nil, whatever the
+    environment (`none` = nil; a function otherwise gets scheme and host) -/
+def transportProxyField (_env : Ambient) : Option (Bytes → ProxyFn) := none
+
+/-- the counter-model: a transport cloned from `http.DefaultTransport` keeps `ProxyFromEnvironment` -/
+def inheritedProxyField (env : Ambient) : Option (Bytes → ProxyFn) :=
+  some fun scheme host => .ok (env.proxyFor scheme host)
+
+/-- `martian.Proxy.init`: the configured proxy function wins; without one the transport's stays -/
+def effectiveProxy (field : Option (Bytes → ProxyFn)) (rc : RouteCfg) (scheme host : Bytes) :
+    Except RouteError (Option ProxyURL) :=
+  match proxyFunc rc with
+  | some f => f host
+  | none =>
+    match field with
+    | some g => g scheme host
+    | none => .ok none
+
+/-- scheme dispatch of both paths over an arbitrary selection (`routeConnect` / `routeRequest` are the
+    instances with `selectProxy`) -/
+def dispatch (sel : Except RouteError (Option ProxyURL)) (connect : Bool) (scheme urlHost : Bytes) :
+    Except RouteError Hop :=
+  match sel with
+  | .error e => .error e
+  | .ok none => .ok (.direct (if connect then urlHost else canonicalAddr scheme urlHost))
+  | .ok (some u) =>
+    if connect then
+      if u.scheme == bs "http" then .ok (.viaProxy .http u.host)
+      else if u.scheme == bs "https" then .ok (.viaProxy .https u.host)
+      else if u.scheme == bs "socks5" then
+        let port := urlPort u.host
+        .ok (.viaProxy .socks5 (netJoinHostPort (hostname u.host) (if port.isEmpty then bs "1080" else port)))
+      else .error (.unsupportedScheme u.scheme)
+    else
+      if u.scheme == bs "socks5" || u.scheme == bs "socks5h" then .ok (.viaProxy .socks5 (canonicalAddr u.scheme u.host))
+      else if u.scheme == bs "https" then .ok (.viaProxy .https (canonicalAddr u.scheme u.host))
+      else .ok (.viaProxy .http (canonicalAddr u.scheme u.host))
+
+/-- where request `q` is sent by an instance whose transport was built with `field`, in a process
+    whose environment is `env` -/
+def routeWith (field : Ambient → Option (Bytes → ProxyFn)) (env : Ambient) (c : InstCfg) (q : RouteReq) :
+    Except RouteError Hop :=
+  dispatch (effectiveProxy (field env) (c.at q) q.scheme (hostname q.urlHost)) q.connect q.scheme q.urlHost
+
+/-- the proxy as it is: `route` with the environment as an explicit input -/
+def routeIn (env : Ambient) (c : InstCfg) (q : RouteReq) : Except RouteError Hop :=
+  routeWith transportProxyField env c q
+
+/-! ### the dialer (`Dialer.DialContext`, `dialContext`)
+
+`DialContext` maps the address once through `--connect-to` and hands the MAPPED address to
+`dialContext`, which makes up to `Retry.Attempts` attempts (at least one), all of them to that
+address, and stops at the first that succeeds.  What the network answers to the successive attempts
+is the parameter `outcomes` (`true` = connected; attempts beyond the list fail). -/
+
+structure DialCfg where
+  connectTo : List HostPortPair := []
+  attempts : Nat := 1                 -- `Retry.Attempts`; 0 (and negative) means one attempt
+  deriving Repr
+
+/-- one attempt: the address handed to `net.Dialer.DialContext` and whether it connected -/
+structure Attempt where
+  addr : Bytes
+  ok : Bool
+  deriving Repr, DecidableEq
+
+def attemptLoop (addrOf : Nat → Bytes) : Nat → Nat → List Bool → List Attempt
+  | _, 0, _ => []
+  | i, n + 1, [] => { addr := addrOf i, ok := false } :: attemptLoop addrOf (i + 1) n []
+  | i, n + 1, o :: os =>
+    if o then [{ addr := addrOf i, ok := true }]
+    else { addr := addrOf i, ok := false } :: attemptLoop addrOf (i + 1) n os
+
+def DialCfg.tries (cfg : DialCfg) : Nat := if cfg.attempts == 0 then 1 else cfg.attempts
+
+/-- the attempts `Dialer.DialContext(addr)` makes, in order -/
+def dialAttempts (cfg : DialCfg) (addr : Bytes) (outcomes : List Bool) : List Attempt :=
+  attemptLoop (fun _ => redirect cfg.connectTo addr) 0 cfg.tries outcomes
+
+/-- the dial succeeds when its last attempt connected -/
+def dialOk (as : List Attempt) : Bool :=
+  match as.getLast? with
+  | some a => a.ok
+  | none => false
+
+/-- the counter-model: the first attempt goes to the mapped address, retries to the one requested -/
+def dialAttemptsUnmappedRetry (cfg : DialCfg) (addr : Bytes) (outcomes : List Bool) : List Attempt :=
+  attemptLoop (fun i => if i == 0 then redirect cfg.connectTo addr else addr) 0 cfg.tries outcomes
 
 /-! ### the counter-model: an instance that remembers answers under a key -/
 
